@@ -5,7 +5,7 @@
    repairs recorded in known_findings.txt (fixed: property=C12 ...).  No proofs here. *)
 From Coq Require Import List Bool Arith.
 From Coq Require Import Strings.String Strings.Byte.
-From Falco Require Import Base.Bytes.
+From Falco Require Import Base.Bytes Gen.LintGen.
 Import ListNotations.
 
 (* ------------------------------------------------------------------ strings *)
@@ -19,10 +19,11 @@ Fixpoint bytes_eqb (a b : list byte) : bool :=
 
 Definition rule := list byte.            (* linter.Rule is a Go string *)
 
-Definition s_next_line : list byte := Eval compute in list_byte_of_string "falco-ignore-next-line".
-Definition s_this_line : list byte := Eval compute in list_byte_of_string "falco-ignore".
-Definition s_start     : list byte := Eval compute in list_byte_of_string "falco-ignore-start".
-Definition s_end       : list byte := Eval compute in list_byte_of_string "falco-ignore-end".
+(* the four keywords: regenerated from the const block of linter/ignore.go (Gen/LintGen.v) *)
+Definition s_next_line : list byte := falcoIgnoreNextLine.
+Definition s_this_line : list byte := falcoIgnoreThisLine.
+Definition s_start     : list byte := falcoIgnoreStart.
+Definition s_end       : list byte := falcoIgnoreEnd.
 
 Inductive dkind := NextLine | ThisLine | Start | End.
 
@@ -35,11 +36,7 @@ Definition kind_of (w : list byte) : option dkind :=
   else None.
 
 (* strings.TrimLeft(comment, "#@*/ ") *)
-Definition in_cutset (b : byte) : bool :=
-  match b with
-  | x23 | x40 | x2a | x2f | x20 => true
-  | _ => false
-  end.
+Definition in_cutset (b : byte) : bool := existsb (byte_eqb b) ignore_cutset.   (* cutset regenerated from the source *)
 
 Fixpoint trim_left_cut (s : list byte) : list byte :=
   match s with
@@ -263,10 +260,11 @@ Fixpoint run (n : node) (p : path) (s : istate) (qv qp : list diag) {struct n} :
 
 Definition run_kids := kids_with run.
 
-(* lintVCL + the lintUnused* passes of Linter.Lint *)
+(* lintVCL + the lintUnused* passes of Linter.Lint.  Lint resets the ignore state before the lintUnused* passes
+   (a range left open at the end of the file ends there), so everything still queued is reported. *)
 Definition report (t : list node) : list diag :=
   let '(s, qv, qp, o) := run_kids t [] 0 init [] [] in
-  o ++ flush_queue qv s ++ flush_queue qp s.
+  o ++ qv ++ qp.
 
 (* ------------------------------------------------------------------ VCL-shaped trees *)
 
